@@ -223,6 +223,44 @@ fn comp(x: &Sx, sh: &Sh) -> Box<dyn Component<P>> {
     }
 }
 
+// ---------------------------------------------------------------- reading the built tree back
+/// Name-preserving serialisation (hcommon::sertree) of a component → wire form without leaf actions.
+fn built_node(x: &Sx) -> String {
+    let field = |x: &Sx, name: &str| -> Option<Sx> {
+        x.items()?.iter().find(|f| matches!(f.head(), Some((n, _)) if n == name)).and_then(|f| f.items().map(|v| v[1].clone()))
+    };
+    match x.head() {
+        Some(("seq", kids)) => tagged("blk", kids.iter().map(built_node)),
+        Some(("S", a)) => match a[0].atom() {
+            Some("TraceLeaf") => format!("(leaf {})", field(x, "id").map(|v| v.render()).unwrap_or("?".into())),
+            Some("Loop") => format!("(while {} {})", built_cond(&field(x, "while").unwrap()), built_node(&field(x, "do").unwrap())),
+            Some("Branch") => {
+                let c = built_cond(&field(x, "condition").unwrap());
+                let t = built_node(&field(x, "if_body").unwrap());
+                match field(x, "else_body") {
+                    Some(Sx::A(_)) | None => format!("(if {c} {t})"),
+                    Some(e) => format!("(ifelse {c} {t} {})", built_node(&e.items().unwrap()[1])),
+                }
+            }
+            Some("Scope") => format!("(scope {})", built_node(&field(x, "body").unwrap())),
+            _ => "(unknown)".into(),
+        },
+        _ => "(unknown)".into(),
+    }
+}
+fn built_cond(x: &Sx) -> String {
+    match x.head() {
+        Some(("S", a)) if a[0].atom() == Some("ScriptCond") => format!("(c {})", a[1].items().unwrap()[1].render()),
+        Some(("N", a)) => match a[0].atom() {
+            Some("And") => tagged("and", a[1].head().unwrap().1.iter().map(built_cond)),
+            Some("Or") => tagged("or", a[1].head().unwrap().1.iter().map(built_cond)),
+            Some("Not") => format!("(not {})", built_cond(&a[1])),
+            _ => "(unknown)".into(),
+        },
+        _ => "(unknown)".into(),
+    }
+}
+
 // ---------------------------------------------------------------- well-formedness (all loops stop)
 fn cond_default(x: &Sx, conds: &HashMap<u64, (bool, Vec<bool>)>) -> bool {
     let (h, a) = x.head().expect("cond");
@@ -290,6 +328,9 @@ fn run_case(input: &Sx) -> Ran {
     } else {
         Configuration::new(comp(tree, &sh))
     };
+    // what the builder / constructors actually built, read back through the code's own `Serialize`
+    let built = hcommon::sertree::to_sexp(config.heuristic()).ok().and_then(|t| Sx::parse(&t)).map(|t| built_node(&t))
+        .unwrap_or_else(|| "unserialisable".to_string());
     let problem = TagProblem;
     let res = match catch(|| config.run(&problem, &mut state)) {
         None => "panic".to_string(),
@@ -323,6 +364,7 @@ fn run_case(input: &Sx) -> Ran {
         format!("(res {res})"),
         format!("(depth {})", scopes.len()),
         tagged("dump", scopes),
+        format!("(built {built})"),
     ]);
     Ran { out, trace }
 }
